@@ -21,7 +21,7 @@ VARIANTS = [
          [(FM, "        if reg.fundamental:", "        if reg.is_fundamental:")],
          ("C06.2", "attr:Register.is_fundamental"), ("C06",)),
     fire("c06-misspelt-attribute-generator",
-         [(UQ, "        size = obj.resolve_size()", "        size = obj.resolved_size()")],
+         [(UQ, "        size = int(obj.resolve_size())", "        size = int(obj.resolved_size())")],
          ("C06.2", "attr:Register.resolved_size"), ("C06",)),
     silent("c06-structure-preserving-read",
            [(GE, "def generate_jaqal_value(val):", "def _describe(qubit):\n    return (qubit.alias_from.name, qubit.alias_index)\n\n\ndef generate_jaqal_value(val):")], ("C06",)),
